@@ -9,7 +9,7 @@ discrete-event simulation, drains it, and returns plain observations for the pro
 import asyncio
 import logging
 
-logging.disable(logging.CRITICAL)      # the drivers log every injected fault at ERROR/CRITICAL level
+logging.disable(logging.CRITICAL)      # the drivers log every injected fault at ERROR/CRITICAL level (see harness/verbose.py)
 
 from harness.gateways import HidSim, tri_report, MODE_OBSERVE, MODE_RESPONSE, R_DALI8, R_DALI16, R_DALI24, R_INFO, \
     R_NO_FRAME, BUS_FRAMING_ERROR, BUS_OK
@@ -231,7 +231,18 @@ async def _caller(sim, cspec, cmds, rec):
 
 def run(case, hooks=None):
     """Play a scenario; returns observations (dict).  hooks: optional dict of callables
-    {"after_connect": f(sim), "before_drain": f(sim)} used by individual properties."""
+    {"after_connect": f(sim), "before_drain": f(sim)} used by individual properties.
+    About one scenario in three (or as case["verbose"] says) runs with the library's logging at its most verbose
+    level (harness/verbose.py): what the library does must not depend on who listens to its log."""
+    from harness import verbose
+    verbose.set(case["verbose"] if "verbose" in case else verbose.derived(case))
+    try:
+        return _run(case, hooks)
+    finally:
+        verbose.set(False)
+
+
+def _run(case, hooks=None):
     hooks = hooks or {}
     drv = case["driver"]
     sim = make_sim(case)
